@@ -680,9 +680,14 @@ class Table(Vector):
 			# Effectively a different input type (single not a list). Returning a value, not a vector.
 			if isinstance(self._underlying[0], Table):
 				return self._underlying[key]
+			# like a sequence: a row position outside the table is an IndexError (a Row made
+			# for it would only fail later, when one of its cells is read)
+			n_rows = len(self)
+			if not -n_rows <= key < n_rows:
+				raise IndexError(f"Table row index {key} out of range (table has {n_rows} rows)")
 			return Row(self, key)
 
-		if isinstance(key, Vector) and key.schema().kind == bool and not key.schema().nullable:
+		if isinstance(key, Vector) and key.schema() is not None and key.schema().kind == bool and not key.schema().nullable:
 			assert (len(self) == len(key))
 			return Vector(tuple(x[key] for x in self._underlying),
 				dtype = self._dtype
@@ -699,7 +704,7 @@ class Table(Vector):
 			)
 
 		# NOT RECOMMENDED
-		if isinstance(key, Vector) and key.schema().kind == int and not key.schema().nullable:
+		if isinstance(key, Vector) and key.schema() is not None and key.schema().kind == int and not key.schema().nullable:
 			if len(self) > 1000:
 				warnings.warn('Subscript indexing is sub-optimal for large vectors; prefer slices or boolean masks')
 			return Vector(tuple(x[key] for x in self._underlying),
